@@ -1107,10 +1107,33 @@ def startState (cfg : Cfg) (simTime prevTime : Int) (vals : Vals) : St :=
   let prev := if first then -1 else prevTime
   { simTime, prevTime := prev, ruleIter := initRuleIter cfg first prev, vals, ruleLog := [] }
 
-theorem runSim_eq (cfg : Cfg) (simTime prevTime : Int) (vals : Vals) :
+/-- the model was already simulated up to the duration: `run_sim` has nothing left to do -/
+def NothingLeft (cfg : Cfg) (simTime : Int) : Prop := (simTime == 0) = false ∧ simTime > cfg.duration
+
+instance (cfg : Cfg) (simTime : Int) : Decidable (NothingLeft cfg simTime) := by unfold NothingLeft; infer_instance
+
+theorem runSim_def (cfg : Cfg) (simTime prevTime : Int) (vals : Vals) :
+    runSim cfg simTime prevTime vals =
+      if NothingLeft cfg simTime then (startState cfg simTime prevTime vals, [])
+      else runLoop cfg (runFuel cfg (startState cfg simTime prevTime vals).prevTime) (simTime == 0)
+        (startState cfg simTime prevTime vals) [] := rfl
+
+theorem runSim_done {cfg : Cfg} {simTime : Int} (prevTime : Int) (vals : Vals) (h : NothingLeft cfg simTime) :
+    runSim cfg simTime prevTime vals = (startState cfg simTime prevTime vals, []) := by
+  rw [runSim_def, if_pos h]
+
+theorem runSim_eq {cfg : Cfg} {simTime : Int} (prevTime : Int) (vals : Vals) (h : ¬ NothingLeft cfg simTime) :
     runSim cfg simTime prevTime vals =
       runLoop cfg (runFuel cfg (startState cfg simTime prevTime vals).prevTime) (simTime == 0)
-        (startState cfg simTime prevTime vals) [] := rfl
+        (startState cfg simTime prevTime vals) [] := by
+  rw [runSim_def, if_neg h]
+
+theorem not_nothingLeft_of_le {cfg : Cfg} {simTime : Int} (h : simTime = 0 ∨ simTime ≤ cfg.duration) :
+    ¬ NothingLeft cfg simTime := by
+  rintro ⟨h1, h2⟩
+  rcases h with h | h
+  · subst h; simp at h1
+  · omega
 
 /-- a legitimate start: a fresh model (`sim_time = 0`) or one left by an earlier run (`0 ≤ prev < sim_time`) -/
 def StartOK (simTime prevTime : Int) : Prop := simTime = 0 ∨ (0 ≤ prevTime ∧ prevTime < simTime)
